@@ -117,6 +117,11 @@ template<class T> void vb_ptr_ops(rlbox_sandbox<SBX>& s)
   tainted<T*, SBX> p1 = s.template malloc_in_sandbox<T>();
   auto q = p + 1; auto r = p - 2L; auto q2 = p + (unsigned char)1; auto q3 = p - (long long)1; auto q4 = p + 1UL;
   tainted<int, SBX> ti = 1; tainted<unsigned long, SBX> tul = 1; auto q5 = p + ti; auto q6 = p - tul;
+  { tainted<unsigned, SBX> tu = 1u; tainted<short, SBX> tsh = (short)1; tainted<long long, SBX> tll = 1LL;
+    auto x1 = p + 1u; auto x2 = p - 1u; auto x3 = p - (unsigned short)1; auto x4 = p + (short)1; auto x5 = p - (signed char)1; auto x6 = p - 1ULL; auto x7 = p + true;
+    auto x8 = p - tu; auto x9 = p + tsh; auto x10 = p - tll; auto& y1 = p[1u]; auto& y2 = p[tu]; auto& y3 = p[(signed char)1]; auto& y4 = p[1ULL]; auto& y5 = p[tll];
+    p -= 1u; p += tu; p -= tll;
+    (void)x1; (void)x2; (void)x3; (void)x4; (void)x5; (void)x6; (void)x7; (void)x8; (void)x9; (void)x10; (void)y1; (void)y2; (void)y3; (void)y4; (void)y5; }
   p += 1; p -= (unsigned char)1; p += ti; ++p; --p; p++; p--;
   auto& e = p[2]; auto& e2 = p[ti]; auto& e3 = p[(short)1]; auto a = &p[1]; auto& d = *p; auto* ar = p.operator->();
   const tainted<T*, SBX> cp = p; auto& ce = cp[1]; auto& cd = *cp; auto* car = cp.operator->();
@@ -296,6 +301,20 @@ void vb_invoke(rlbox_sandbox<SBX>& s)
 
 #endif
 
+#if defined(VB_PART_PTR) || defined(VB_PART_ALL)
+int vb_plain_fn(int);
+// the run-time checked entry points with function-pointer and pointer-to-pointer values
+void vb_checked_entry_fnptr(rlbox_sandbox<SBX>& s)
+{
+  tainted<int (*)(int), SBX> tf; tf.assign_raw_pointer(s, &vb_plain_fn);
+  tainted<int (**)(int), SBX> pf = s.malloc_in_sandbox<int (*)(int)>(); (*pf).assign_raw_pointer(s, &vb_plain_fn); pf[0].assign_raw_pointer(s, &vb_plain_fn);
+  auto acc = s.UNSAFE_accept_pointer(&vb_plain_fn); (void)acc;
+  int* raw = nullptr; int** rawpp = &raw; tainted<int**, SBX> tpp; tpp.assign_raw_pointer(s, rawpp); auto acc2 = s.UNSAFE_accept_pointer(rawpp); (void)acc2;
+  void* rawv = nullptr; tainted<void*, SBX> tv; tv.assign_raw_pointer(s, rawv); tv.assign_raw_pointer(s, raw); auto acc3 = s.UNSAFE_accept_pointer(rawv); (void)acc3;
+  const char* rawc = nullptr; tainted<const char*, SBX> tc; tc.assign_raw_pointer(s, rawc); auto acc4 = s.UNSAFE_accept_pointer(rawc); (void)acc4;
+}
+#endif
+
 void vb_all(rlbox_sandbox<SBX>& s)
 {
 #if defined(VB_PART_CONV) || defined(VB_PART_ALL)
@@ -303,6 +322,7 @@ void vb_all(rlbox_sandbox<SBX>& s)
 #endif
 #if defined(VB_PART_PTR) || defined(VB_PART_ALL)
   vb_ptr_ops<int>(s); vb_ptr_ops<long>(s); vb_ptr_ops<unsigned long>(s); vb_ptr_ops<char>(s); vb_ptr_ops<double>(s);
+  vb_checked_entry_fnptr(s);
   vb_ptr_ops<short>(s); vb_ptr_ops<unsigned long long>(s); vb_ptr_ops<unsigned char>(s); vb_ptr_ops<bool>(s); vb_ptr_ops<float>(s); vb_ptr_ops<char16_t>(s);
 #endif
 #if defined(VB_PART_NUM) || defined(VB_PART_ALL)
@@ -315,6 +335,9 @@ void vb_all(rlbox_sandbox<SBX>& s)
 #endif
 #if defined(VB_PART_ARR) || defined(VB_PART_ALL)
   vb_arr<int, 4>(s); vb_arr<long, 1>(s); vb_arr<char, 16>(s); vb_arr<unsigned long, 3>(s); vb_arr<short, 7>(s);
+  // extents beyond the positive range of the narrow index types: values that alias a valid index after a
+  // truncating / sign-changing cast only exist for such extents (128 < N, 32768 < N, 2^31 < N)
+  vb_arr<char, 200>(s); vb_arr<char, 300>(s); vb_arr<char, 40000>(s); vb_arr<char, 70000>(s); vb_arr<char, 3000000000UL>(s);
   vb_arr2d(s);
 #endif
 #if defined(VB_PART_INVOKE) || defined(VB_PART_ALL)
